@@ -858,7 +858,7 @@ func (ex *Exec) callContract(st *State, c *Contract, fi *FuncInfo, ct *callTarge
 	for _, t := range targets {
 		ws.keys[t.key] = t.sort
 	}
-	if !c.Pure {
+	if !c.Pure && !c.NoAlloc {
 		ws.keys["alloc"] = ex.w.setSort(sRef)
 		ws.keys["arralloc"] = ex.w.setSort(sArrId)
 		// a callee may allocate objects of any type it mentions: their fields are fresh, which the
@@ -1357,7 +1357,7 @@ func (ex *Exec) contractWriteKeys(ws *writeSet, c *Contract, fi *FuncInfo, calle
 			panic(r)
 		}
 	}()
-	if !c.Pure {
+	if !c.Pure && !c.NoAlloc {
 		ws.keys["alloc"] = ex.w.setSort(sRef)
 		ws.keys["arralloc"] = ex.w.setSort(sArrId)
 	}
@@ -1547,6 +1547,15 @@ func (ex *Exec) checkPost(st *State, fi *FuncInfo, c *Contract, vals []Val) {
 	eenv := env.with(ex.entry)
 	for _, p := range c.Panics {
 		ex.oblige(st, "panic.missing", p.Props, sNot(eenv.boolTerm(p.E)), "returns normally although the contract says it panics when "+p.Src, pos)
+	}
+	if c.NoAlloc {
+		goal := "true"
+		for _, key := range []string{"alloc", "arralloc"} {
+			if a1, ok := st.heap[key]; ok && a1 != sym("H0_"+key) {
+				goal = sAnd(goal, sEq(a1, sym("H0_"+key)))
+			}
+		}
+		ex.oblige(st, "noalloc", nil, goal, "noalloc: the function allocates nothing", pos)
 	}
 	for _, g := range c.Ghosts {
 		env.ghostUpdate(g)
